@@ -56,6 +56,7 @@ META = dict(
                   "api_sparse_objects": 1700, "api_missing_objects": 1000,
                   "api_asymmetric_objects": 60,
                   "api_history_objects": 60, "api_history_asymmetric": 15,
+                  "long_line_cases": 5,
                   "conservation_checked": 2000, "boundary_cases": 500,
                   "boundary_cases_modes_disagree_in_R": 150,
                   "sequential_vs_matrix_compared": 3000},
@@ -534,6 +535,8 @@ def run(ctx):
                 random_sequential_kernel_case(ctx, K, r, cid, nmax)
             elif fam in (3, 4):
                 random_api_case(ctx, RP, r, cid, nmax)
+            elif fam == 5 and (k // 8) % 40 == 3:
+                long_lines_case(ctx, RP, r, cid, ctx.thorough)
             elif fam == 5:
                 if (k // 8) % 2:
                     local_rate_case(ctx, RP, r, cid, nmax)
@@ -649,6 +652,31 @@ def local_rate_case(ctx, RP, r, cid, nmax):
     api_judge(ctx, obj, R, None, cid, [], {"x": x,
                                            "local_recurrence_rate": rr}, r,
               all_mins=False)
+
+
+def long_lines_case(ctx, RP, r, cid, thorough):
+    """Series made of a few long plateaus: black and white lines longer than
+    127 / 255 samples (line-length counters of narrow integer type, block
+    boundaries of tiled loops), matrix and sequential mode."""
+    lens = [int(v) for v in r.choice([129, 140, 200, 257, 300] if thorough
+                                     else [129, 140, 200, 257],
+                                     int(r.integers(2, 4)))]
+    levels = r.permutation(8)[:len(lens)].astype(float) * 4.0
+    x = np.concatenate([np.full(n, lv) + r.integers(0, 2, n) / 8.0
+                        for n, lv in zip(lens, levels)])
+    if r.random() < 0.5:
+        x = np.concatenate([x, x[:lens[0]]])      # long diagonals too
+    x = x[:, None]
+    eps = float(r.choice([0.0625, 0.25, 1.0]))
+    E = ref.as2d(ref.f32(x))
+    D = ref.distance_matrix(E, E, "supremum")
+    R = ref.threshold_matrix(D, eps)
+    ctx.count("long_line_cases")
+    ctx.maxstat("longest_vertical_line",
+                float(np.flatnonzero(ref.vert_hist(R, True, None)).max() + 1))
+    api_pair(ctx, RP, x, R, None, cid, ["long-lines"],
+             {"plateau_lengths": lens, "levels": levels, "threshold": eps},
+             r, all_mins=False, threshold=eps)
 
 
 def history_case(ctx, RP, r, cid, nmax):
